@@ -2,7 +2,10 @@
 package core
 
 import (
+	"bytes"
+	"errors"
 	"fmt"
+	"regexp"
 	"sort"
 	"strings"
 	"sync"
@@ -299,4 +302,33 @@ again:
 		goto again
 	}
 	return n
+}
+
+// Package-level state: probed with -access regardless of -access-types, except
+// sync values, error sentinels and compiled regexps.
+var (
+	scratch     []byte
+	buf         bytes.Buffer
+	errSentinel = errors.New("sentinel")
+	wordRE      = regexp.MustCompile(`^\w+$`)
+	guardMu     sync.Mutex
+	limits      = map[string]int{"a": 1}
+	defaults    = inner{n: 1}
+)
+
+// Globals reads and writes package-level variables of this and another package.
+func Globals(s string) string {
+	guardMu.Lock()
+	defer guardMu.Unlock()
+	scratch = append(scratch[:0], s...)
+	buf.Reset()
+	buf.WriteString(s)
+	if !wordRE.MatchString(s) {
+		return errSentinel.Error()
+	}
+	limits[s]++
+	defaults.arr[1] = len(scratch)
+	other.Counter++
+	n := other.Counter + limits[s] + defaults.n
+	return fmt.Sprint(string(scratch), "/", n, defaults.arr[1])
 }
